@@ -11,10 +11,16 @@
     * `promo_letter_iff_partial`: a successor carries a promotion piece exactly when it comes out of
       the promotion fan-out (castling and en passant successors carry none — the defect fixed in
       e601f94 — and ordinary successors carry none).
-  Carried by the correspondence run (oracle: Spec.apply on the SPEC's 8x8 position): that placement,
-  rights and king squares of each successor are those the rules give (`abs s = apply (abs p) m`).
+    * `successor_is_spec_apply` (FULL, model level): for every well-formed position every successor
+      of the full move generation is exactly `Spec.apply` of the move named by its descriptor fields:
+      placement, side to move, four castling rights, en passant target — ordinary moves, captures,
+      promotions (four pieces), en passant, the four castlings; the king caches of the successor are
+      right as well (used for the king-safety filter).
+  Not proved: that well-formedness (`WFp`, in particular "the abstraction is a legal position") is
+  itself preserved along chains — `Inv` is; the correspondence run covers chains.
 -/
 import Walleye.Proofs.Caps
+import Walleye.Proofs.StartWF
 namespace Walleye
 
 theorem gen_succ_inv (h : Hasher) (p : Pos) (mode : Mode) (hinv : Inv h p) :
@@ -84,5 +90,12 @@ theorem promo_letter_iff_partial (h : Hasher) (piece : Piece) (p : Pos) (sq mov 
         cases hor with
         | inl e => exact hnw ⟨e.1, e.2, hk⟩
         | inr e => exact hnb ⟨e.1, e.2, hk⟩
+
+/-- **C02 on the model**: every successor of the full move generation — ordinary move, capture,
+    promotion, en passant, castling — has exactly the placement, side to move, castling rights and
+    en passant target of the specification's `apply` of the move its descriptor fields name -/
+theorem successor_is_spec_apply (h : Hasher) (p : Pos) (wf : WFp p) :
+    ∀ q ∈ generateMoves h p .all, abs q = Spec.apply (abs p) (moveOf q) :=
+  fun q hq => (generateMoves_sound h p wf q hq).2
 
 end Walleye
